@@ -9,6 +9,9 @@
   Fragment (`Q`): `.`  constants  `a | b`  `a , b`  `.[]`  `.name`  `empty`  `[q]`  `error`  `try b`
   `try b catch h`  `if c then a else b end` (so also `elif`, `and`, `or`)  `l // r`  `$x`
   `src as $x | body`  `reduce src as $x (init; upd)`  `foreach src as $x (init; upd; ext)`
+  `{(k₁): v₁, a: v₂, …}` with generator keys and values (entries with a key query or a constant key)
+  `delay q` (the instructions of `q`; one more unit of fuel of the reference semantics — used by the tie to
+  `Spec.eval`, Model/MiniSpec.lean)
   (variables local to a scope)  and, over a program `def f₀(g): …; def f₁(g): …; main` of one-filter-parameter
   functions: the parameter `g` and calls `fᵢ(a)` (any recursion).
 
@@ -17,12 +20,12 @@
     * `compile`  — emits, instruction for instruction, what compiler.go emits for these forms with
                    every optimisation switched off (compileQuery / compileComma / compileArray /
                    compileTry / compileIf / compileAlt / compileBind / compileReduce / compileForeach /
-                   compileFuncDef / compileFunc /
+                   compileObject / compileObjectKeyVal / compileFuncDef / compileFunc /
                    compileCallInternal); `compileProg` lays out the
                    whole program as `Compile` does.  Registers `[scope id, i]` are named by the pc
                    of the scope's `opscope` and the pc offset of the allocating instruction; the
                    correspondence stream `mini` compares modulo that renaming.
-    * `step`     — one iteration of the `loop:` of `(*env).Next` (execute.go) for the 22 opcodes
+    * `step`     — one iteration of the `loop:` of `(*env).Next` (execute.go) for the 23 opcodes
                    the fragment needs (+ the native `error`), with the `backtrack` and `err` locals
                    (`err` possibly wrapped in `tryEndError`s: `VErr`), `pushfork` /
                    `popfork` (the `Cfg.fail` state), `callpc` / `index` locals (`CP`), `opscope`'s
@@ -55,6 +58,8 @@ class IterMsg where
   msg : V → V
   index : V → V → Option V
   indexMsg : V → V → V
+  /-- the text of `objectKeyNotStringError{k}.Error()` -/
+  keyMsg : V → V
 
 /-! ## the fragment and its reference semantics -/
 
@@ -81,7 +86,39 @@ inductive Q where
   | reduce (x : Nat) (src init upd : Q)
   /-- `foreach src as $x (init; upd; ext)` (`foreach src as $x (init; upd)` is `ext = .`) -/
   | foreach (x : Nat) (src init upd ext : Q)
+  /-- `{(k₁): v₁, …, (kₙ): vₙ}` (n ≥ 1) is `obj sp` with the entries as the left-nested spine
+      `sp = objSnoc (… (objSnoc objStart k₁ v₁) …) kₙ vₙ`.  `objStart` / `objSnoc` are not queries by
+      themselves (the reference semantics gives them no meaning: `diverge`); the spine is kept inside
+      `Q` so that `Q` stays a plain inductive type. -/
+  | obj (sp : Q)
+  | objStart
+  /-- one more entry `(k): v` with a key QUERY (also `$x: v`, `"…": v` through `k`) -/
+  | objSnoc (init k v : Q)
+  /-- one more entry `key: v` with a CONSTANT key (`a: v`, `"a": v`; the shorthands `{a}` = `a: .a` and
+      `{$x}` = `x: $x` are compiled to the same instructions) -/
+  | objSnocC (init : Q) (key : V) (v : Q)
+  /-- `q` itself: the same instructions, one more unit of reference fuel (used by the tie to
+      `Spec.eval`, which spends fuel per object entry: Model/MiniSpec.lean `Tr.obj`) -/
+  | delay (q : Q)
   deriving Inhabited
+
+/-- the key of an object entry: a query, or a constant -/
+inductive EKey where
+  | q (k : Q)
+  | c (key : JV)
+
+/-- the entries `(keyᵢ, vᵢ)` of a spine, in order -/
+def Q.entries : Q → List (EKey × Q)
+  | .objSnoc init k v => init.entries ++ [(.q k, v)]
+  | .objSnocC init key v => init.entries ++ [(.c key, v)]
+  | _ => []
+
+/-- a spine: `objStart` extended by entries -/
+def Q.IsSpine : Q → Prop
+  | .objStart => True
+  | .objSnoc init _ _ => init.IsSpine
+  | .objSnocC init _ _ => init.IsSpine
+  | _ => False
 
 inductive Err where
   /-- `.[]` on a value that is neither an array nor an object (`iteratorError`) -/
@@ -94,6 +131,8 @@ inductive Err where
   | idx (v k : V)
   /-- use of an unbound variable (a compile error in jq; reference semantics only) -/
   | noVar (x : Nat)
+  /-- `{(k): …}` with a key that is not a string (`objectKeyNotStringError`) -/
+  | keyNotStr (k : V)
 
 /-- what `catch` receives: the error value of `error`, the message text otherwise
     (`opforktrybegin`: `ValueError` → `e.Value()`, else `err.Error()`) -/
@@ -103,6 +142,7 @@ def Err.toV [IterMsg] : Err → V
   | .user v => v
   | .idx v k => IterMsg.indexMsg v k
   | .noVar _ => .null
+  | .keyNotStr k => IterMsg.keyMsg k
 
 /-- `v == nil || v == false` (`opjumpifnot`) -/
 def falsy : V → Bool
@@ -173,6 +213,40 @@ def foreachL (upd : V → V → Res) (ext : V → V → Res) (final : Stop) : Li
   | w :: ws, s =>
     let ru := upd w s
     guardND ru ((Res.bindL (ext w) ru.outs ru.stop).seq (foreachL upd ext final ws (ru.outs.getLast?.getD s)))
+
+/-- sequencing with the absorbing out-of-fuel outcome: `r`'s outputs fed to `f` in order -/
+def Res.bindG (r : Res) (f : V → Res) : Res :=
+  match r.stop with
+  | .diverge => ⟨[], .diverge⟩
+  | _ => Res.bindL f r.outs r.stop
+
+/-- the loop of `opobject` over the evaluated pairs, LAST entry first (it pops them off the stack):
+    the first key met that is not a string is the error; a key already present — set by a LATER
+    entry — is kept (`if _, ok := m[s]; !ok { m[s] = v }`) -/
+def objOfPairsRev : List (V × V) → List (Bytes × V) → Except V (List (Bytes × V))
+  | [], m => .ok m
+  | (k, v) :: rest, m =>
+    match k with
+    | .str s => objOfPairsRev rest (if m.any (fun kv => kv.1 == s) then m else kvInsert s v m)
+    | _ => .error k
+
+/-- the object built from the evaluated pairs (in the order of the entries), or the key error -/
+def objOfPairs (acc : List (V × V)) : Res :=
+  match objOfPairsRev acc.reverse [] with
+  | .ok m => ⟨[.obj m], .done⟩
+  | .error k => ⟨[], .err (.keyNotStr k)⟩
+
+/-- object construction over the entries in order: for each output of the FIRST key (outermost
+    loop), for each output of its value, for each output of the second key, …, of the last value
+    (innermost loop): one object.  Every key and value is evaluated on the input `x` of the object
+    construction; a key is evaluated before its value; key errors are found when the object is
+    built, after all entries have produced a value. -/
+def evalEntries (ev : Q → V → Res) (x : V) : List (EKey × Q) → List (V × V) → Res
+  | [], acc => objOfPairs acc
+  | (.q k, v) :: rest, acc =>
+    (ev k x).bindG fun kk => (ev v x).bindG fun vv => evalEntries ev x rest (acc ++ [(kk, vv)])
+  | (.c key, v) :: rest, acc =>
+    (ev v x).bindG fun vv => evalEntries ev x rest (acc ++ [(key, vv)])
 
 def lookup {α : Type} (x : Nat) : List (Nat × α) → Option α
   | [] => none
@@ -277,6 +351,11 @@ def eval [IterMsg] (defs : Name → Q) : Nat → Ctx → Env → Q → V → Res
           (foreachL (fun w s => eval defs n g ⟨ρ.clo, (x, w) :: ρ.vars⟩ upd s)
             (fun w u => eval defs n g ⟨ρ.clo, (x, w) :: ρ.vars⟩ ext u)
             (eval defs n g ρ src v).stop (eval defs n g ρ src v).outs s0)) ri.outs ri.stop
+  | n+1, g, ρ, .obj sp, v => evalEntries (fun q x => eval defs n g ρ q x) v sp.entries []
+  | _+1, _, _, .objStart, _ => ⟨[], .diverge⟩
+  | _+1, _, _, .objSnoc _ _ _, _ => ⟨[], .diverge⟩
+  | _+1, _, _, .objSnocC _ _ _, _ => ⟨[], .diverge⟩
+  | n+1, g, ρ, .delay q, v => eval defs n g ρ q v
 
 /-! ## bytecode (code.go) -/
 
@@ -292,6 +371,8 @@ inductive Instr where
   | dup | jumpifnot (t : Nat) | index (k : V)
   /-- `env.expdepth++ / --`: only read in path mode, which the fragment does not have — no-ops here -/
   | expbegin | expend
+  /-- `opobject n`: pop `n` value/key pairs, push the object -/
+  | object (n : Nat)
 
 abbrev Code := List Instr
 
@@ -386,6 +467,22 @@ def compile (entry : Name → Nat) (g : Ctx) (e p : Nat) : Q → List Instr
     let cu := compile entry ⟨g.fn, (x, px - e) :: g.vars⟩ e (px + 2) upd
     [.dup] ++ ci ++ [.store e (pst - e)] ++ cs ++ [.store e (px - e), .load e (pst - e)] ++ cu ++
       [.dup, .store e (pst - e)] ++ compile entry ⟨g.fn, (x, px - e) :: g.vars⟩ e (px + 2 + cu.length + 2) ext
+  | .obj sp =>
+    -- compileObject: store v; (for each entry: load v; key; load v; value); object n
+    compile entry g e p sp ++ [.object sp.entries.length]
+  | .objStart => [.store e (p - e)]
+  | .objSnoc init k v =>
+    -- compileObjectKeyVal with a key query: load v; key; load v; value — `v` is the register
+    -- allocated by the `store` the spine starts with, at `p`
+    let ci := compile entry g e p init
+    let ck := compile entry g e (p + ci.length + 1) k
+    let cv := compile entry g e (p + ci.length + 1 + ck.length + 1) v
+    ci ++ [.load e (p - e)] ++ ck ++ [.load e (p - e)] ++ cv
+  | .objSnocC init key v =>
+    -- compileObjectKeyVal with a constant key: push key; load v; value
+    let ci := compile entry g e p init
+    ci ++ [.push key, .load e (p - e)] ++ compile entry g e (p + ci.length + 2) v
+  | .delay q => compile entry g e p q
 
 /-- length of the code of a query (independent of where it is placed) -/
 def Q.size : Q → Nat
@@ -408,6 +505,11 @@ def Q.size : Q → Nat
   | .bind _ s b => s.size + b.size + 4
   | .reduce _ src init upd => src.size + init.size + upd.size + 9
   | .foreach _ src init upd ext => src.size + init.size + upd.size + ext.size + 6
+  | .obj sp => sp.size + 1
+  | .objStart => 1
+  | .objSnoc init k v => init.size + k.size + v.size + 2
+  | .objSnocC init _ v => init.size + v.size + 2
+  | .delay q => q.size
 
 /-- a program: `def f₀(g): defs[0]; def f₁(g): defs[1]; …; main` -/
 structure Prog where
@@ -433,6 +535,10 @@ def Q.Closed (nf : Nat) : List Nat → Q → Prop
   | vs, .reduce x src init upd => src.Closed nf vs ∧ init.Closed nf vs ∧ upd.Closed nf (x :: vs)
   | vs, .foreach x src init upd ext =>
     src.Closed nf vs ∧ init.Closed nf vs ∧ upd.Closed nf (x :: vs) ∧ ext.Closed nf (x :: vs)
+  | vs, .obj sp => sp.Closed nf vs ∧ sp.IsSpine ∧ sp ≠ .objStart
+  | vs, .objSnoc init k v => init.Closed nf vs ∧ k.Closed nf vs ∧ v.Closed nf vs
+  | vs, .objSnocC init _ v => init.Closed nf vs ∧ v.Closed nf vs
+  | vs, .delay q => q.Closed nf vs
   | _, _ => True
 
 /-- the query uses the parameter of the enclosing function -/
@@ -449,6 +555,10 @@ def Q.HasParam : Q → Prop
   | .bind _ s b => s.HasParam ∨ b.HasParam
   | .reduce _ src init upd => src.HasParam ∨ init.HasParam ∨ upd.HasParam
   | .foreach _ src init upd ext => src.HasParam ∨ init.HasParam ∨ upd.HasParam ∨ ext.HasParam
+  | .obj sp => sp.HasParam
+  | .objSnoc init k v => init.HasParam ∨ k.HasParam ∨ v.HasParam
+  | .objSnocC init _ v => init.HasParam ∨ v.HasParam
+  | .delay q => q.HasParam
   | _ => False
 
 /-- well-scoped programs (what the jq compiler accepts): calls go to defined functions and the
@@ -552,6 +662,17 @@ def frameAt (fr : List Frame) (d : Nat) : Option Frame :=
 /-- depth of the top frame (`env.scopes.index`) -/
 def topDepth (fr : List Frame) : Option Nat := if fr.isEmpty then none else some (fr.length - 1)
 
+/-- the loop of `opobject`: pop a value and a key `n` times; a key that is not a string ends it
+    with the error; a key already in the map (popped earlier) is kept.  `none`: the stack is too
+    short or holds something that is not a value (a Go panic) -/
+def popObject : Nat → List SV → List (Bytes × V) → Option (Except V (List (Bytes × V)) × List SV)
+  | 0, st, m => some (.ok m, st)
+  | n+1, .v v :: .v k :: st, m =>
+    match k with
+    | .str s => popObject n st (if m.any (fun kv => kv.1 == s) then m else kvInsert s v m)
+    | _ => some (.error k, st)
+  | _+1, _, _ => none
+
 def step [IterMsg] (code : Code) : Cfg → Option Cfg
   | .fail [] _ _ => none
   | .fail (f :: fs) e R => some (.run f.pc f.stack fs true e R f.frames f.off 0)   -- popfork
@@ -650,6 +771,12 @@ def step [IterMsg] (code : Code) : Cfg → Option Cfg
       | _ => none
     | some .expbegin => some (.run (pc+1) st fs bt e R fr off cp)
     | some .expend => some (.run (pc+1) st fs bt e R fr off cp)
+    | some (.object n) =>
+      if bt then some (.fail fs e R) else
+      match popObject n st [] with
+      | some (.ok m, s) => some (.run (pc+1) (.v (.obj m) :: s) fs bt e R fr off cp)
+      | some (.error k, _) => some (.fail fs (some (.plain (.keyNotStr k))) R)
+      | none => none
     | some .callerror =>
       if bt then some (.fail fs e R) else
       match st with
@@ -706,5 +833,29 @@ def initCfg (code : Code) (v : V) : Cfg :=
 
 def runProg [IterMsg] (p : Prog) (fuel : Nat) (v : V) : Outcome :=
   exec (compileProg p) fuel (initCfg (compileProg p) v) []
+
+/-! ## `delay` is only reference fuel -/
+
+/-- the query without its `delay`s -/
+def Q.strip : Q → Q
+  | .pipe a b => .pipe a.strip b.strip
+  | .comma a b => .comma a.strip b.strip
+  | .arr q => .arr q.strip
+  | .call1 f a => .call1 f a.strip
+  | .try_ b => .try_ b.strip
+  | .tryCatch b h => .tryCatch b.strip h.strip
+  | .ite c a b => .ite c.strip a.strip b.strip
+  | .alt l r => .alt l.strip r.strip
+  | .bind x s b => .bind x s.strip b.strip
+  | .reduce x src init upd => .reduce x src.strip init.strip upd.strip
+  | .foreach x src init upd ext => .foreach x src.strip init.strip upd.strip ext.strip
+  | .obj sp => .obj sp.strip
+  | .objSnoc init k v => .objSnoc init.strip k.strip v.strip
+  | .objSnocC init key v => .objSnocC init.strip key v.strip
+  | .delay q => q.strip
+  | q => q
+
+/-- the program without its `delay`s: what the compiler sees -/
+def Prog.strip (p : Prog) : Prog := ⟨p.defs.map Q.strip, p.main.strip⟩
 
 end Gojq.MiniVM
